@@ -101,6 +101,29 @@ def spine_scripts(kinds):
             for _ in range(3):
                 best.append(hdr(best[-1]))
             out.append("dump step=89")
+        elif kind == "shrink":
+            # the best chain is saved with its tip in main file k+1, then SHRINKS back into file k - a header just
+            # below the boundary is marked invalid, or a shorter chain with more work takes over - and the next Save /
+            # Clean is cut at every write: the main file of the old tip is removed before the branch file is rewritten
+            k = rnd.choice([1, 1, 2])
+            n = 1000 * k + rnd.randint(2, 25)
+            for _ in range(n):
+                main.append(hdr(main[-1]))
+            out += ["save", "dump step=211"]
+            j = rnd.randint(1, 6)
+            if rnd.random() < 0.5:
+                out.append(f"mark id={main[1000 * k - j]}")
+                main = main[:1000 * k - j]
+            else:
+                fork = [main[1000 * k - j - 3]]
+                for _ in range(2):
+                    fork.append(hdr(fork[-1], 453050367))
+                main = main[:1000 * k - j - 2] + fork[1:]
+            for _ in range(rnd.randint(0, 2)):
+                main.append(hdr(main[-1]))
+            out.append("dump step=211")
+            out.append(f"crashsave ld={rnd.choice([146, 300])}" if rnd.random() < 0.6 else f"crashclean d=160 ld={rnd.choice([146, 300])}")
+            out += ["save", "load", "dump step=211"]
         else:
             n = 2100 + rnd.randint(0, 300)
             for _ in range(n):
